@@ -107,7 +107,7 @@ pub fn run(args: &Args) -> Report {
         });
         for p in parts { r.merge(p); }
       }
-      r.rule = format!("{}Leg 1: a full-fidelity tracker (all 23 callbacks) writes into the same totally ordered log as the task-side and checker-side observers; monitor = stack discipline of start/end events (failed operations popped when the failure is observed), exact adjacency with task-side execution/require/read/write events, verdicts and stamps reported = those the checkers produced. Leg 2: CompositeTracker(R, CompositeTracker(EventTracker, R)) - both recorders must see identical streams, EventTracker::slice must equal the projection of the stream since the last build_start with index = position, and every Event/EventTracker query helper is compared with an independent implementation for every event and every task/resource key. non-trivial = a distinct case with a session of >= 12 tracker events (leg 1) / a build with >= 6 recorded events (leg 2).", CLASS_DOC);
+      r.rule = format!("{}Leg 1: a full-fidelity tracker (all 23 callbacks) writes into the same totally ordered log as the task-side and checker-side observers; monitor = stack discipline of start/end events (failed operations popped when the failure is observed), exact adjacency with task-side execution/require/read/write events, verdicts and stamps reported = those the checkers produced. Leg 2: CompositeTracker(R, CompositeTracker(R, CompositeTracker(EventTracker, R))) - the three recorders (reached through first / second-first / second-second-second children) must see identical streams, EventTracker::slice must equal the projection of the stream since the last build_start with index = position, and every Event/EventTracker query helper is compared with an independent implementation for every event and every task/resource key. non-trivial = a distinct case with a session of >= 12 tracker events (leg 1) / a build with >= 6 recorded events (leg 2).", CLASS_DOC);
       r.floor("all 23 tracker methods observed through the composite", c17x::all_methods_seen(&r) || replay.is_some());
       r.floor("helper comparisons ran", r.get("helper_calls_compared") > 1000 || replay.is_some());
       r
